@@ -16,7 +16,8 @@
    Part E  group_ops membership => C08_feasible_fixed; model-level
            fixpoint => nearest.
 
-   NOT proved: convergence of the iterates (Boyle-Dykstra 1986). *)
+   NOT proved: convergence of the iterates (Boyle-Dykstra 1986); boundedness and
+   summable movement of the model's iterates are in Proofs/LatticeDykstraBound.v. *)
 From TFL Require Export Model.LatticeDykstra Proofs.LatticeSpecFacts Proofs.DykstraTheory.
 Open Scope Q_scope.
 
